@@ -223,6 +223,8 @@ pub struct CodegenContext {
     undefined: HashSet<UndefinedSymbol>,
     /// Symbols that are defined, but got a different value than they had in the previous pass
     changed: HashSet<UndefinedSymbol>,
+    /// The symbols that were looked up in the current pass
+    used: Vec<(SymbolIndex, UndefinedSymbol)>,
     current_scope: IdentifierPath,
     current_scope_nx: SymbolIndex,
 
@@ -282,6 +284,7 @@ impl CodegenContext {
             symbols: SymbolTable::default(),
             undefined: HashSet::new(),
             changed: HashSet::new(),
+            used: vec![],
             current_scope: IdentifierPath::empty(),
             current_scope_nx: SymbolIndex::new(0),
             macro_sites: HashMap::new(),
@@ -359,8 +362,33 @@ impl CodegenContext {
     }
 
     fn after_pass(&mut self) -> CoreResult<()> {
-        self.register_all_segment_symbols()?;
-        Ok(())
+        let result = self.register_all_segment_symbols();
+
+        // What was looked up in this pass may have been found because an earlier pass defined it, while this pass did not
+        // (e.g. a label in the branch of an '.if' that is not taken anymore). Such a symbol will not exist in the next
+        // pass, so there has to be one.
+        for (symbol_nx, usage_location) in std::mem::take(&mut self.used) {
+            if matches!(self.symbols.try_get(symbol_nx), Some(symbol) if symbol.pass_idx < self.pass_idx)
+            {
+                self.changed.insert(usage_location);
+            }
+        }
+
+        result
+    }
+
+    /// Forgets the symbols that the pass that just ended did not define (anymore), so they are not mistaken for the value
+    /// that something further down had in the previous pass.
+    fn drop_stale_symbols(&mut self) {
+        let stale = self
+            .symbols
+            .indices()
+            .filter(|nx| matches!(self.symbols.try_get(*nx), Some(symbol) if symbol.pass_idx < self.pass_idx))
+            .collect_vec();
+        for nx in stale {
+            self.symbols.update_data(nx, None);
+        }
+        self.symbols.remove_empty_leaves();
     }
 
     pub fn symbol<S: Into<Option<Span>>, D: Into<SymbolData>>(
@@ -379,6 +407,7 @@ impl CodegenContext {
     }
 
     fn next_pass(&mut self) {
+        self.drop_stale_symbols();
         self.pass_idx += 1;
         self.macro_invocations.clear();
         self.macro_depth = 0;
@@ -1203,6 +1232,14 @@ impl CodegenContext {
 
                 if let Some((macro_nx, def)) = def {
                     let parent_scope = self.current_scope_nx;
+                    self.used.push((
+                        macro_nx,
+                        UndefinedSymbol {
+                            scope_nx: parent_scope,
+                            id: name.data.clone().into(),
+                            span: Some(name.span),
+                        },
+                    ));
                     self.symbol_definition(macro_nx)
                         .add_usage(DefinitionLocation {
                             parent_scope,
@@ -1430,13 +1467,17 @@ impl CodegenContext {
                 usage.path.span,
             );
 
-            if usage.symbol_index.is_none() {
-                complete = false;
-                self.undefined.insert(UndefinedSymbol {
-                    scope_nx: self.current_scope_nx,
-                    id: usage.path.data,
-                    span: Some(usage.path.span),
-                });
+            let usage_location = UndefinedSymbol {
+                scope_nx: self.current_scope_nx,
+                id: usage.path.data,
+                span: Some(usage.path.span),
+            };
+            match usage.symbol_index {
+                Some(symbol_nx) => self.used.push((symbol_nx, usage_location)),
+                None => {
+                    complete = false;
+                    self.undefined.insert(usage_location);
+                }
             }
         }
         complete
@@ -1840,11 +1881,10 @@ pub fn codegen(
     let mut ctx = CodegenContext::new(ast.clone(), options.clone());
     ctx.register_default_fns();
     for (name, val) in &options.predefined_constants {
-        ctx.symbols.insert(
-            ctx.symbols.root,
-            name.as_str(),
-            ctx.symbol(None, *val, SymbolType::Constant),
-        );
+        // (no pass defines these: they are never out of date)
+        let mut symbol = ctx.symbol(None, *val, SymbolType::Constant);
+        symbol.pass_idx = usize::MAX;
+        ctx.symbols.insert(ctx.symbols.root, name.as_str(), symbol);
     }
 
     #[cfg(test)]
@@ -1988,6 +2028,7 @@ pub fn codegen(
     }
 
     // We're done!
+    ctx.drop_stale_symbols();
     if let Err(e) = ctx.finalize() {
         errors.extend(e);
     }
